@@ -25,7 +25,7 @@ UNITS = {
                    verify=['keys', 'key_transforms', 'trace'], default_tags={'key_transforms': ['C14'], 'keys': ['C14']}),
     'converter': dict(modules=['key_codes', 'events', 'keys', 'fancy_keys', 'physical_keyboard_layouts', 'char_production_map', 'fancy_layout_interpreting'], spec=[],
                       default_tags={'fancy_layout_interpreting': ['C14'], 'fancy_keys': ['C14'], 'keys': ['C14']}),
-    'glue': dict(modules=['key_codes', 'events', 'keys', 'key_transforms', 'fancy_keys', 'physical_keyboard_layouts', 'char_production_map', 'fancy_layout_interpreting'],
+    'glue': dict(modules=['key_codes', 'events', 'keys', 'key_transforms', 'fancy_keys', 'physical_keyboard_layouts', 'char_production_map', 'fancy_layout_interpreting', 'layout_parsing_formatting'],
                  spec=['trace.rs', 'glue.rs'], verify_only=['glue'], default_tags={'glue': ['C14']}),
     'frontend': dict(modules=['key_codes', 'events', 'keys', 'fancy_keys', 'layout_parsing_formatting'], spec=[], verify_only=['layout_parsing_formatting'],
                      default_tags={'layout_parsing_formatting': ['C14']}),
